@@ -24,11 +24,20 @@ CHECKS: dict[str, tuple[str, str, str, str, str]] = {
         "scale-aware tolerance otherwise; any exception in generation/scheduling/compilation "
         "is a violation; outputs are also supplied in reversed order. In addition every "
         "generated kernel's instruction/dependency structure is model-checked by TLC "
-        "(spec/PtKernel.tla) under ALL instruction orders its depends_on edges allow.",
+        "(spec/PtKernel.tla) under ALL instruction orders its depends_on edges allow. "
+        "Calls to hand-written loopy kernels (six kernels with their NumPy meaning, static "
+        "shapes, one or several results, chained calls, scalar arguments from 0-d values) and "
+        "every ordered pair of remapping operations are part of the program space; every "
+        "program with a reduction also runs with reductions INLINED (harness decides "
+        "quasi-affinity, see note).",
         "Floating-point values are sampled (the textbook wrong target for TLC); the array-level "
         "semantics is decided symbolically elsewhere (C02/C05). Trusted: NumPy, gcc, loopy's "
         "scheduling and C code generation, the harness shims in ptverif/cexec.py. The kernel "
-        "model is at variable granularity.",
+        "model is at variable granularity. In this sandbox loopy's affine conversion fails on "
+        "every expression, so pytato's is_quasi_affine is constantly False and reductions are "
+        "always force-stored; cexec's qa_shim restores the decision so that both code paths "
+        "run. Shape inference for size parameters of CALLEE kernels is not exercised (islpy "
+        "here lacks dim_max).",
         "differential execution of generated C code against NumPy over generated programs + "
         "TLC model checking of every generated kernel's dependency graph (PtKernel) over all "
         "admissible instruction orders",
@@ -139,8 +148,10 @@ CHECKS: dict[str, tuple[str, str, str, str, str]] = {
         "program's, values equal to NumPy's and to the untagged variant's, and code generation "
         "must not fail. Every variant's kernel is model-checked by TLC (spec/PtKernel.tla) "
         "under ALL instruction orders its depends_on edges allow.",
-        "As C01: floating-point values sampled; gcc/loopy trusted; is_quasi_affine() is always "
-        "False with the installed loopy, so the inlined-reduction path is unreachable here.",
+        "As C01: floating-point values sampled; gcc/loopy trusted. Every program with a "
+        "reduction runs both with force-stored reductions (what the installed loopy leads to) "
+        "and with inlined reductions (cexec qa_shim); sparse matmul with every strategy on the "
+        "reduction node and tags on results of loopy calls are included.",
         "differential execution of tagged vs untagged generated code against NumPy + TLC "
         "model checking of every variant's kernel dependency graph (PtKernel)",
         "DESIGN.md section 4 C07"),
@@ -159,9 +170,13 @@ CHECKS: dict[str, tuple[str, str, str, str, str]] = {
         "unpartitioned global graph, every run's event trace is validated by DistTrace.tla, and "
         "the set of global states the real executor reaches must equal TLC's reachable set.",
         "Trusted: TLC; the simulated MPI (non-overtaking per (source, tag), buffered Isend, "
-        "rendezvous Wait, arbitrary non-empty Waitsome subsets), not a real MPI; part programs "
-        "are a NumPy reference evaluator of the part expressions, generated loopy code is only "
-        "generated, never run. Program space beyond the exhaustive bound is sampled.",
+        "rendezvous Wait, arbitrary non-empty Waitsome subsets), not a real MPI. In the "
+        "exhaustive-schedule stages part programs are a NumPy reference evaluator of the part "
+        "expressions; on a sample of the programs every part is compiled by pytato's own "
+        "generate_code_for_partition (harness C target) and the real kernels run inside the "
+        "real executor under random schedules, each kernel result also compared with the "
+        "reference evaluation of its part. Program space beyond the exhaustive bound is "
+        "sampled.",
         "TLA+ state machine of the executor model-checked by TLC on partitions exported from the "
         "real partitioner; trace validation and reachable-state-set comparison against the real "
         "executor under an exhaustive controlled scheduler",
@@ -270,7 +285,9 @@ CHECKS: dict[str, tuple[str, str, str, str, str]] = {
         "/ TypeError at run time. For index nodes the slice text in the generated source is "
         "extracted and TLC (PtCheck rel sliceeq over PtCore's CPython slice semantics) decides "
         "that it selects the same elements as the user's index, over the C02 slice scope.",
-        "Floating-point values are sampled; real NumPy stands in for jax.numpy (absent here). "
+        "Floating-point values are sampled; real NumPy stands in for jax.numpy (absent here): "
+        "generate_jax (plain and jit=True), JAXPythonTarget and the processing of bound "
+        "arguments are driven on a stand-in jax package whose jax.numpy is NumPy. "
         "Trusted: NumPy, TLC for the slice relation.",
         "differential execution of generated Python code against NumPy over generated programs "
         "+ TLC validation of the re-synthesised slice text against the CPython slice semantics "
@@ -307,7 +324,10 @@ CHECKS: dict[str, tuple[str, str, str, str, str]] = {
         "size valuation against the concrete NumPy shape, and ONE compiled kernel per template "
         "is executed at all sizes 1..6 and compared with NumPy.",
         "Sizes are sampled for execution (C11 covers all sizes symbolically); floating-point "
-        "values compared with tolerance. Templates are hand-written, not generated.",
+        "values compared with tolerance. Besides the hand-written templates, programs over "
+        "symbolic shapes are GENERATED (random programs grown with marker axis lengths that "
+        "become size parameters; 60 quick / 800 thorough); documented refusals (reductions "
+        "over symbolic axes) constrain nothing.",
         "TLC model checking of the equality rule (PtAffine) + TLC validation of recorded "
         "decisions and of inferred shape expressions + execution of one kernel at many sizes",
         "DESIGN.md section 4 C16"),
